@@ -12,7 +12,11 @@ O: shape-coverage sweep: every filter constructor x 16 capture shapes (expressio
    a named group that captures / captures nothing / no group / a block comment / a trailing comment) x RunContext settings,
    plus At() every shape, plus Do() functions asking for the text and type of the capture and of an unbound variable, plus a
    TruncateLen -3..70 render sweep, through the real engine under recover; every report is checked for a non-nil node with
-   valid in-file positions, a rule group, and an in-file suggestion range.
+   valid in-file positions, a rule group, and an in-file suggestion range. Deep sweep: every type predicate (and custom filters
+   calling types.Identical / Implements / SizeOf / String) over recursive, cyclic and very large types (interface cycles through
+   1..3 anonymous levels, mutually recursive interfaces, self-referential struct / func / map / slice / pointer / chan types,
+   generic lists, 512 KiB arrays) runs in child processes with a 48 MiB stack cap and a time budget: a fatal stack overflow
+   or a hang names the rule and the probe site.
 """
 import json
 import os
@@ -27,6 +31,8 @@ SHAPES = {
     "params": ["ShList 2"], "params-unnamed": ["ShList 2"], "type": ["ShNode"], "names": ["ShList 1"], "sinkctx": ["ShNode"],
     # comment rules: every capture (also a named group that matched nothing) is a non-nil *ast.Comment
     "comment": ["ShNode"], "comment-empty": ["ShNode"], "comment-nogroup": ["ShNode"], "comment-block": ["ShNode"], "comment-trailing": ["ShNode"],
+    "comment-angle": ["ShNode"], "comment-angle-empty": ["ShNode"], "comment-nested": ["ShNode"], "comment-unnamed+named": ["ShNode"],
+    "comment-flags": ["ShNode"], "comment-alternation": ["ShNode"], "comment-angle-alternation": ["ShNode"], "sinkctx-str": ["ShNode"],
 }
 # (the two-variable shapes `two:*` -- one capture absent, the other present -- take part in the sweep only: the Coq model's
 #  closure_run speaks about one capture at a time)
@@ -85,6 +91,10 @@ def run(c):
             c.count()
             inp = {"pattern": r.get("pattern"), "where": r.get("where"), "extra": r.get("extra", ""), "report": "$x|$$ ($$ only for the sinkctx shape)", "suggest": "$x",
                    "TruncateLen": r["trunc"], "GoVersion": r["gover"], "state_reused": r["reused"], "capture_shape": r["shape"]}
+            if r.get("site"):
+                inp["site"] = r["site"]
+                if r["shape"] == "deep":
+                    inp["target"] = "harness/cmd/c07/deep.go:deepDecls (recursive / cyclic / very large types)"
             if r["shape"].startswith("two:"):
                 inp["report"], inp["suggest"] = "$x|$y|$$", "$y"
             if r.get("do"):
